@@ -136,7 +136,7 @@ static Lab *build_lab(const LabKey &k)
 	return raw;
 }
 
-struct Outcome { size_t delivered = 0; bool closed = false; int err = 0; };
+struct Outcome { size_t delivered = 0; bool closed = false; int err = 0; bool failed_by_wire_end = false; bool marked = false; };
 
 // feed `wire` (+ filler) to a restored victim under a chunking policy
 static Outcome replay(Lab *L, const Bytes &wire, unsigned chunk_mode, size_t filler, const Bytes *extra_plain = nullptr, size_t extra_at = 0)
@@ -189,11 +189,14 @@ static Outcome replay(Lab *L, const Bytes &wire, unsigned chunk_mode, size_t fil
 			}
 			pos += k;
 			progress = true;
+			// state right after the last byte of the (complete) faulty stream, before any filler
+			if (pos == wire.size() && !o.marked) { o.marked = true; o.failed_by_wire_end = v->closed() && v->error() != 0; }
 		}
 		if (!progress) { if (++idle > 2) break; } else idle = 0;
 	}
 	o.closed = v->closed();
 	o.err = v->error();
+	if (!o.marked) o.failed_by_wire_end = o.closed && o.err != 0;   // failed before the stream was even complete
 	return o;
 }
 
@@ -214,6 +217,14 @@ static void expect_reject(Lab *L, const Outcome &o, size_t ri, const std::string
 		L->desc.c_str(), what.c_str(), o.delivered, limit, ri);
 	VF_CHECK(o.closed && o.err != 0, "%s: %s: after the faulty record #%zu and %zu filler bytes the victim is %s with error %d (must fail)",
 		L->desc.c_str(), what.c_str(), ri, FILLER, o.closed ? "closed" : "still open", o.err);
+}
+
+// for faults whose record is complete in the stream: the failure must be there as soon as the
+// record has been received in full, not only when later bytes arrive
+static void expect_immediate(Lab *L, const Outcome &o, size_t ri, const std::string &what)
+{
+	VF_CHECK(o.failed_by_wire_end, "%s: %s: the faulty record #%zu was received in full, yet the connection had not failed at that point (it %s later, error %d): the record was accepted by the engine",
+		L->desc.c_str(), what.c_str(), ri, o.closed ? "failed only" : "did not even fail", o.err);
 }
 
 enum { F_BITS, F_DROP, F_DUP, F_SWAP, F_REPLAY, F_TRUNC, F_SPLICE, F_REFLECT, F_PADLEN, F_PADBYTE, F_MACBYTE, F_PADLIE, F_AAD, F_LENGTHS, F_CONTROL, F_NCLASS };
@@ -389,6 +400,7 @@ static void run_fault(Lab *L, unsigned fclass, size_t ri, unsigned chunk_mode, u
 				eo.corrupt_mac_at = (int)i;
 				Outcome o = send(c.encrypt(23, ver, pt, plen, eo), chunk_mode + (unsigned)i);
 				expect_reject(L, o, ri, base + fmt(" MAC/tag byte %zu wrong", i));
+			expect_immediate(L, o, ri, base + fmt(" MAC/tag byte %zu wrong", i));
 				stats.eval(key(fmt("m%zu", i)));
 			}
 			break;
@@ -419,6 +431,7 @@ static void run_fault(Lab *L, unsigned fclass, size_t ri, unsigned chunk_mode, u
 					eo.corrupt_pad_at = (int)j;
 					Outcome o = send(c.encrypt(23, ver, pt, plen, eo), chunk_mode + (unsigned)j);
 					expect_reject(L, o, ri, base + fmt(" padding %zu, byte %zu wrong", padv, j));
+			expect_immediate(L, o, ri, base + fmt(" padding %zu, byte %zu wrong", padv, j));
 					stats.eval(key(fmt("q%zu.%zu", padv, j)));
 				}
 			break;
@@ -438,6 +451,7 @@ static void run_fault(Lab *L, unsigned fclass, size_t ri, unsigned chunk_mode, u
 				body.back() = (uint8_t)lie;
 				Outcome o = send(c.encrypt_raw_cbc(body), chunk_mode + lie);
 				expect_reject(L, o, ri, base + fmt(" padding %zu bytes but length byte says %u", padv + 1, lie));
+			expect_immediate(L, o, ri, base + fmt(" padding %zu bytes but length byte says %u", padv + 1, lie));
 				stats.eval(key(fmt("l%zu.%u", padv, lie)));
 			}
 			break;
@@ -465,6 +479,7 @@ static void run_fault(Lab *L, unsigned fclass, size_t ri, unsigned chunk_mode, u
 			for (size_t i = 0; i < ln; i++) w.push_back((uint8_t)(i * 31 + 7));
 			Outcome o = replay(L, w, chunk_mode + (unsigned)ln, FILLER);
 			expect_reject(L, o, ri, base + fmt(" record of inadmissible length %zu", ln));
+			expect_immediate(L, o, ri, base + fmt(" record of inadmissible length %zu", ln));
 			stats.eval(key(fmt("n%zu", ln)));
 		}
 		break;
